@@ -45,10 +45,10 @@ BUGS = {'sep2': {'PeerGotExactly', 'LogSendExact', 'LogAllInterleaved', 'ReturnV
 OWNER = {'C08': ('C08:',), 'C11': ('C11:',)}
 
 
-def consts(transport, history, maxops, small, bug='none', logcfgs='LogCfgsAll'):
+def consts(transport, history, maxops, small, bug='none', logcfgs='LogCfgsAll', hlogcfgs='LogCfgsSmall'):
     if small:
         c = [('Payloads', '<- SmallPayloads'), ('ReadPayloads', '<- SmallRead'), ('KeyPayloads', '<- SmallKeys'),
-             ('Lists', '<- SmallLists'), ('Controls', '<- SmallControls'), ('LogCfgs', '<- LogCfgsSmall')]
+             ('Lists', '<- SmallLists'), ('Controls', '<- SmallControls'), ('LogCfgs', '<- %s' % hlogcfgs)]
     else:
         c = [('Payloads', '<- AllPayloads'), ('ReadPayloads', '<- ReadAll'), ('KeyPayloads', '<- KeysAll'),
              ('Lists', '<- ListsAll'), ('Controls', '<- ControlsAll'), ('LogCfgs', '<- %s' % logcfgs)]
@@ -128,6 +128,54 @@ def slim(st):
 
 
 # ---------------------------------------------------------------- instantiation of TLC states
+def probe_popen_read_error(mode):
+    """LogTypeIsApiType on an execution in which the pipe read of PopenSpawn's reader thread fails
+    (fault injected at the os.read of pexpect.popen_spawn): whatever happens, only values of the
+    API string type may be written to the log files.  Returns [(clause, detail)]."""
+    import errno
+    import pexpect.popen_spawn as pp
+    from ..reclog import RecLog
+    from ..sendlog_world import ENCODING
+
+    class OsProxy(object):
+        fired = False
+
+        def read(self, fd, n):
+            if not OsProxy.fired:
+                OsProxy.fired = True
+                raise OSError(errno.EIO, 'injected read failure')
+            return os.read(fd, n)
+
+        def __getattr__(self, name):
+            return getattr(os, name)
+    rec = RecLog('all')
+    saved = pp.os
+    pp.os = OsProxy()
+    c = None
+    try:
+        c = pp.PopenSpawn(['/bin/cat'], timeout=10, logfile=rec, encoding=ENCODING[mode])
+        try:
+            c.expect(pexpect.EOF)
+        except Exception:
+            pass
+    finally:
+        pp.os = saved
+        if c is not None:
+            try:
+                c.proc.stdin.close()
+            except OSError:
+                pass
+            c.proc.wait()
+            c._read_thread.join(2)
+            c.proc.stdout.close()
+    T = api_type(mode)
+    bad = [w for w in rec.writes if type(w) is not T]
+    if bad:
+        return [('C11:type', {'log': 'all', 'got_types': sorted(set(type(w).__name__ for w in bad)), 'want_type': T.__name__,
+                              'value': repr(bad[0])[:200], 'op': 'read-error', 'what': 'a failing pipe read wrote a non-string object to logfile'})]
+    return []
+
+
 class Inst(object):
     """turns the items of a TLC state into concrete bytes / API values for one step"""
 
@@ -408,6 +456,7 @@ def run_walk(job):
         i = 0
         nfail = 0
         while i < len(steps) and nfail < 6:
+            # (a walk is given up after 6 failing steps of the property being checked)
             label, succ = steps[i]
             name = label.split('(')[0]
             if name == 'EnterInteract':
@@ -429,9 +478,11 @@ def run_walk(job):
                 at = i
                 i += 1
             real = [f for f in found if f[0].startswith('C')]
+            own = [f for f in real if f[0].startswith(job.get('pid', 'C'))]
             if real:
                 # a failing real-process step is confirmed on a fresh object: same prefix, twice more
-                if job.get('confirm', True):
+                # (only for the property being checked; the other property's clauses are informational here)
+                if job.get('confirm', True) and own:
                     ok_again = False
                     for _ in range(2):
                         again = run_walk(dict(job, steps=steps[:i], confirm=False))
@@ -441,7 +492,7 @@ def run_walk(job):
                     if ok_again:
                         out['drift'] += 1
                         continue
-                nfail += 1
+                nfail += 1 if own else 0
                 for clause, detail in real:
                     out['fails'].append({'clause': clause, 'detail': detail, 'at': at})
             out["drift"] += sum(1 for f in found if f[0].startswith("drift:")); out.setdefault("driftlist", []).extend([f for f in found if f[0].startswith("drift:")][:1])
@@ -461,7 +512,7 @@ def window_graph(ctx, transport):
     cfg = tlc.write_cfg(os.path.join(ctx.work, 'w_%s.cfg' % transport), invariants=INVS,
                         constants=consts(transport, False, 1, False, logcfgs='LogCfgsQuick' if getattr(ctx, 'tier', 'quick') == 'quick' else 'LogCfgsAll'))
     dot = os.path.join(ctx.work, 'w_%s.dot' % transport)
-    res = tlc.run('MCSendLog', cfg, ctx.work, workers=1, timeout=900, extra=['-dump', 'dot,actionlabels', dot],
+    res = tlc.run('MCSendLog', cfg, ctx.work, workers=1, timeout=900, heap='2g', extra=['-dump', 'dot,actionlabels', dot],
                   outname='w_%s.out' % transport)
     if not res['ok']:
         raise tlc.TLCError('SendLog (last-operation configuration, %s): %s (%s)' % (transport, res['violated'] or 'TLC failed', res['out']))
@@ -475,9 +526,10 @@ def window_graph(ctx, transport):
     return res, g
 
 
-def history_check(ctx, transport, maxops):
-    cfg = tlc.write_cfg(os.path.join(ctx.work, 'h_%s.cfg' % transport), constants=consts(transport, True, maxops, True), invariants=INVS)
-    res = tlc.run('MCSendLog', cfg, ctx.work, workers=4, timeout=1500, outname='h_%s.out' % transport, coverage=False)
+def history_check(ctx, transport, maxops, hlogcfgs='LogCfgsSmall'):
+    tag = '%s_%d' % (transport, maxops)
+    cfg = tlc.write_cfg(os.path.join(ctx.work, 'h_%s.cfg' % tag), constants=consts(transport, True, maxops, True, hlogcfgs=hlogcfgs), invariants=INVS)
+    res = tlc.run('MCSendLog', cfg, ctx.work, workers=4, timeout=2400, heap='4g', outname='h_%s.out' % tag, coverage=False)
     if not res['ok']:
         raise tlc.TLCError('SendLog (whole-history configuration, %s): %s (%s)' % (transport, res['violated'] or 'TLC failed', res['out']))
     return res
@@ -485,7 +537,9 @@ def history_check(ctx, transport, maxops):
 
 def mutant_check(ctx, bug):
     cfg = tlc.write_cfg(os.path.join(ctx.work, 'm_%s.cfg' % bug), constants=consts('pty', True, 2, True, bug), invariants=INVS)
-    res = tlc.run('MCSendLog', cfg, ctx.work, workers=2, timeout=600, outname='m_%s.out' % bug)
+    res = tlc.run('MCSendLog', cfg, ctx.work, workers=2, timeout=600, heap='2g', outname='m_%s.out' % bug)
+    if res['violated'] not in BUGS[bug] and (res['machinery_error'] or res['timed_out']):
+        res = tlc.run('MCSendLog', cfg, ctx.work, workers=2, timeout=600, heap='2g', outname='m_%s.out' % bug)
     if res['violated'] not in BUGS[bug]:
         raise tlc.TLCError('SendLog with Bug=%s should violate one of %s, got %s' % (bug, sorted(BUGS[bug]), res['violated']))
     return res['violated']
@@ -510,9 +564,13 @@ def run(ctx):
     maxops = 3 if quick else 4
     with ThreadPool(2) as tp:
         hist = tp.map(lambda tr: history_check(ctx, tr, maxops), TRANSPORTS)
+        # one operation more on the transport with the most operations, fewer log configurations
+        deep = history_check(ctx, 'pty', maxops + 1, 'LogCfgsTwo' if quick else 'LogCfgsOne')
         caught = tp.map(lambda b: mutant_check(ctx, b), sorted(BUGS))
         graphs = tp.map(lambda tr: window_graph(ctx, tr), TRANSPORTS)
-    hstates = sum(r['distinct'] for r in hist)
+    hstates = sum(r['distinct'] for r in hist) + deep['distinct']
+    ctx.note('TLC SendLog, whole histories on pty with <= %d operations (%d log configuration(s)): %d distinct states' % (
+        maxops + 1, 2 if quick else 1, deep['distinct']))
     ctx.note('TLC SendLog, whole histories (<= %d operations, 3 payload classes, 4 log configurations, bytes/utf-8/utf-16): %s '
              'distinct states; %d invariants hold' % (maxops, ' + '.join('%s %d' % (tr, r['distinct']) for tr, r in zip(TRANSPORTS, hist)), len(INVS)))
     ctx.note('model sensitivity: ' + ', '.join('%s -> %s' % (b, v) for b, v in zip(sorted(BUGS), caught)))
@@ -524,16 +582,29 @@ def run(ctx):
     for tr, (res, g) in zip(TRANSPORTS, graphs):
         walks = plan_walks(g, 30 if quick else 60, rng)
         for widx, (i0, walk) in enumerate(walks):
-            jobs.append({'transport': tr, 'init': slim(g.nodes[i0]), 'widx': widx, 'work': ctx.work,
+            jobs.append({'transport': tr, 'init': slim(g.nodes[i0]), 'widx': widx, 'work': ctx.work, 'pid': pid,
                          'steps': [(lab, slim(g.nodes[d])) for lab, d in walk]})
     order = list(range(len(jobs)))
     rng.shuffle(order)
     t1 = time.time()
-    with Pool(12) as pool:
-        outs_shuffled = pool.map(run_walk, [jobs[i] for i in order], chunksize=4)
+    # two rounds: a transport that already fails on many steps of the first tenth of its walks is not
+    # replayed further (every failing step is confirmed twice on fresh objects, which is slow)
+    cut = max(1, len(order) // 10)
     outs = [None] * len(jobs)
-    for i, o in zip(order, outs_shuffled):
-        outs[i] = o
+    with Pool(12) as pool:
+        for i, o in zip(order[:cut], pool.map(run_walk, [jobs[i] for i in order[:cut]], chunksize=2)):
+            outs[i] = o
+        nf = {}
+        for i in order[:cut]:
+            nf[jobs[i]['transport']] = nf.get(jobs[i]['transport'], 0) + sum(1 for f in outs[i]['fails'] if f['clause'].startswith(pid))
+        broken = set(tr for tr, n in nf.items() if n >= 100)
+        later = [i for i in order[cut:] if jobs[i]['transport'] not in broken]
+        for i, o in zip(later, pool.map(run_walk, [jobs[i] for i in later], chunksize=4)):
+            outs[i] = o
+    if broken:
+        ctx.note('not replayed further after >= 100 failing steps in the first tenth of the walks: %s' % ', '.join(sorted(broken)))
+    jobs = [j for j, o in zip(jobs, outs) if o is not None]
+    outs = [o for o in outs if o is not None]
     stats = {'walks': len(jobs), 'steps': 0, 'planned': sum(len(j['steps']) for j in jobs), 'drift': 0, 'per': {}, 'nontrivial': 0}
     mach = [(j, o) for j, o in zip(jobs, outs) if o['machinery']]
     if len(mach) > max(2, len(jobs) // 100):
@@ -553,7 +624,11 @@ def run(ctx):
             ctx.fail(f['clause'], {'transport': j['transport'], 'init': j['init'], 'widx': j['widx'], 'steps': j['steps'][:f['at'] + 1] if not
                                    j['steps'][f['at']][0].startswith('EnterInteract') else j['steps'][:_interact_end(j['steps'], f['at']) + 1]},
                      detail=f['detail'], signature=signature(j, f))
-    any_fail = bool(ctx.failures)
+    for m in ('bytes', 'utf8'):
+        for clause, detail in probe_popen_read_error(m):
+            ctx.fail(clause, {'probe': 'popen-read-error', 'mode': m}, detail=detail,
+                     signature={'transport': 'popen', 'kind': 'popen', 'mode': m, 'op': 'read-error', 'phase': 'normal', 'log': 'all'})
+    any_fail = bool(broken) or any(f.clause.startswith(pid) for f in ctx.failures)
     if not any_fail and stats['steps'] < stats['planned']:
         raise tlc.TLCError('only %d of %d planned steps were replayed' % (stats['steps'], stats['planned']))
     missing = set(CONTROL_TABLE) - ctl_used
@@ -580,7 +655,7 @@ def run(ctx):
     sample_job = jobs[len(jobs) // 2]
     evidence.write(pid, ctx.tier, ctx.seed, 'model_checking', {
         'states': hstates + sum(len(g.nodes) for r, g in graphs),
-        'transitions': sum(r['generated'] for r in hist) + sum(g.n_edges() for r, g in graphs),
+        'transitions': sum(r['generated'] for r in hist) + deep['generated'] + sum(g.n_edges() for r, g in graphs),
         'traces_validated_against_impl': len(jobs),
         'samples': [{'transport': sample_job['transport'], 'mode': sample_job['init']['mode'], 'logcfg': sample_job['init']['logcfg'],
                      'walk': [lab for lab, s in sample_job['steps']][:40]}],
@@ -590,7 +665,7 @@ def run(ctx):
                 'object; after each step peer bytes, three logs (value, type), flush counts and return value are compared with the '
                 'successor state; non-trivial = the step puts bytes on the wire or text into a log',
         'exhaustive': True, 'graph_transitions': sum(g.n_edges() for r, g in graphs), 'per_transport_steps': stats['per'],
-        'history_states': {tr: r['distinct'] for tr, r in zip(TRANSPORTS, hist)}, 'history_max_ops': maxops,
+        'history_states': {tr: r['distinct'] for tr, r in zip(TRANSPORTS, hist)}, 'history_max_ops': maxops, 'history_deep': {'transport': 'pty', 'max_ops': maxops + 1, 'states': deep['distinct']},
         'model_mutants_rejected': dict(zip(sorted(BUGS), caught)), 'control_names_sent': sorted(ctl_used),
         'checker_cmd': hist[0]['cmd'], 'known_findings_hit': nknown, 'spec_drift': stats['drift'], 'walks_not_carried_out': len(mach),
     }, assumptions=[
@@ -654,9 +729,15 @@ def self_test(ctx, graphs):
 
 
 def replay(ctx):
+    ctx.replay = os.path.abspath(ctx.replay)
     os.chdir(ctx.work)
     d = json.load(open(ctx.replay))
     c = d['case']
+    if c.get('probe') == 'popen-read-error':
+        for clause, detail in probe_popen_read_error(c['mode']):
+            if clause.startswith(OWNER[ctx.pid]):
+                ctx.fail(clause, c, detail=detail, signature=d.get('signature'))
+        return common.conclude(ctx)[0]
     job = {'transport': c['transport'], 'init': c['init'], 'widx': c.get('widx', 0), 'work': ctx.work,
            'steps': [tuple(s) for s in c['steps']], 'confirm': False}
     out = run_walk(job)
